@@ -20,7 +20,11 @@ def oracle_noop(req, out):
 def gen_par_blocks(tier, rng):
     """the file as the commands read it: through the parallel parser (every worker count for short texts in the thorough tier)"""
     import props.c07 as c07
-    return [r for r in c07.gen_par("quick" if tier == "quick" else tier, rng)][: (6000 if tier == "quick" else 600000)]
+    reqs = list(c07.gen_par(tier, rng))
+    cap = 9000 if tier == "quick" else 600000
+    if len(reqs) <= cap:
+        return reqs
+    return [reqs[i] for i in sorted(rng.sample(range(len(reqs)), cap))]          # spread over all kinds of texts, not a prefix
 
 def oracle_par_blocks(req, out):
     if out.startswith("same "):
